@@ -1007,7 +1007,8 @@ def hand_packages():
         _m(["h1", "m4"], False, [["import", ["h1", "m3"], "w0"], ["star", ["h1", "m3"], "rel"], ["setall", "list", [["attr", "w0", "list"]]]])]})
     # sub-packages, relative imports of every level, `from . import sub` in an __init__, `import a.b.c`, module objects re-exported
     H.append({"name": "h2", "order": ["h2.s.t.d0", "h2.s.t", "h2.s.n0", "h2.s", "h2.m0", "h2"], "modules": [
-        _m(["h2"], True, [["setall", "list", [["s", "s"], ["s", "K"]]], ["from", ["h2"], "s", None, "rel"], ["from", ["h2", "m0"], "K", None, "rel"]]),
+        _m(["h2"], True, [["setall", "list", [["s", "s"], ["s", "K"]]], ["from", ["h2"], "s", None, "rel"], ["from", ["h2", "m0"], "K", None, "rel"],
+                          ["from", ["h2"], "m0", "z", "rel"], ["from", ["h2"], "s", "y", "abs"]]),
         _m(["h2", "m0"], False, [["from", ["h2", "s", "t", "d0"], "K", None, "rel"], ["import", ["h2", "s", "n0"], None],
                                  ["from", ["h2", "s"], "n0", "y", "rel"]]),
         _m(["h2", "s"], True, [["from", ["h2", "s"], "n0", None, "rel"], ["star", ["h2", "s", "t"], "rel"], ["from", ["h2", "s", "n0"], "g", "f", "rel"]]),
